@@ -150,6 +150,55 @@ def spec_on_impl(o):
     return None
 
 
+def e2e_spec(o):
+    """`sx arp --live` on the wire: complete passes, spaced by the interval, exclusions in every pass, one report per
+    host, exit on SIGINT. Returns None or (key, reason)."""
+    import ipaddress
+    net = ipaddress.ip_network(o["subnet"])
+    want = [str(a) for a in net if str(a) not in set(o["exclude"])]
+    reqs = [a for a in o["seen"] if a["op"] == 1 and a["sender"] == o["src_ip"]]
+    if not o["exited"]:
+        return ("e2e-hang", "sx arp --live does not exit after SIGINT")
+    if o["sigint"] == 0:
+        return ("e2e-ended", "sx arp --live ended by itself after %.0f ms (exit code %d): %s" % (
+            (o["exit"] - o["start"]) / 1e6, o["exit_code"], o["stderr"][:200]))
+    if o["exit_code"] != 0:
+        return ("e2e-exit", "sx arp --live exits with code %d after SIGINT: %s" % (o["exit_code"], o["stderr"][:200]))
+    n = len(want)
+    passes = [reqs[i:i + n] for i in range(0, len(reqs), n)]
+    for k, p in enumerate(passes):
+        tg = [a["target"] for a in p]
+        full = len(p) == n
+        if any(t not in want for t in tg):
+            bad = [t for t in tg if t not in want][0]
+            return ("e2e-foreign", "pass %d probes %s which is excluded or outside %s" % (k, bad, o["subnet"]))
+        if len(set(tg)) != len(tg) or (full and sorted(tg) != sorted(want)):
+            return ("e2e-pass", "pass %d on the wire is not every address exactly once: %s" % (k, tg))
+    tol = max(40.0, o["interval_ms"] / 4.0)
+    for k in range(len(passes) - 1):
+        gap = (passes[k + 1][0]["t"] - passes[k][-1]["t"]) / 1e6
+        if gap < o["interval_ms"] - tol:
+            return ("e2e-interval", "pass %d starts %.0f ms after pass %d ended, the interval is %d ms" % (
+                k + 1, gap, k, o["interval_ms"]))
+    if reqs:
+        complete = sum(1 for p in passes if len(p) == n)
+        span = (o["sigint"] - reqs[0]["t"]) / 1e6
+        if span >= 2 * o["interval_ms"] + 250 and complete < 2:
+            return ("e2e-stops", "only %d complete pass(es) in the %.0f ms between the first probe and SIGINT "
+                                 "(interval %d ms): passes do not keep coming" % (complete, span, o["interval_ms"]))
+    ips = []
+    for l in o["stdout"]:
+        try:
+            ips.append(json.loads(l).get("ip"))
+        except ValueError:
+            return ("e2e-output", "a line of the output is not JSON: %r" % l[:80])
+    if len(set(ips)) != len(ips):
+        return ("e2e-repeat", "a host is reported more than once in live mode: %s" % ips)
+    if any(i not in want for i in ips):
+        return ("e2e-output", "a host outside the targets is reported: %s" % ips)
+    return None
+
+
 def report(ctx, o, key, why):
     tag = "%s-%d" % (re.sub(r"\W+", "_", key)[:30], len(ctx.findings))
     path = ctx.write_replay(tag, {
@@ -186,13 +235,41 @@ def run(ctx):
     gen_ok = ctx.gen()
     model_ok = gen_ok and ctx.coq_model(["Spec/C19.vo"])
     proof_ok = gen_ok and ctx.coq_proofs("Properties/C19.v")
-    rows = []
+    rows, e2e = [], []
     if ctx.harness_build("c19"):
         args = ["-out", "cases.jsonl", "-seed", ctx.seed]
         args += ["-ntrace", 150, "-nseq", 70, "-every", 5] if quick else ["-ntrace", 3000, "-nseq", 1200, "-every", 40]
+        # end to end: the unmodified binary in a private network namespace
+        sx = os.path.join(ctx.work, "sx")
+        rc, out = verif.sh(["go", "build", "-o", sx, "."], env=verif.GOENV, cwd=verif.REPO, timeout=900)
+        if rc == 0:
+            args += ["-e2e", 2 if quick else 12, "-sx", sx]
+        else:
+            ctx.skipped.append("e2e: the sx binary does not build: " + out[-300:])
         ok, _ = ctx.harness_run("c19", args, timeout=1500)
         if ok:
-            rows = ctx.read_jsonl(os.path.join(ctx.work, "cases.jsonl"))
+            allrows = ctx.read_jsonl(os.path.join(ctx.work, "cases.jsonl"))
+            rows = [o for o in allrows if o["kind"] != "e2e"]
+            e2e = [o for o in allrows if o["kind"] == "e2e"]
+    for o in e2e:
+        if o.get("skipped"):
+            ctx.skipped.append("e2e: " + o["skipped"])
+            continue
+        nreq = len([a for a in o["seen"] if a["op"] == 1 and a["sender"] == o["src_ip"]])
+        ctx.count("e2e-arp-live", (o["subnet"], o["interval_ms"], tuple(o["exclude"])), nontrivial=nreq > 8,
+                  sample={"cmd": "sx arp --live %dms --json %s%s" % (o["interval_ms"], "--exclude <%s> " % ",".join(
+                      o["exclude"]) if o["exclude"] else "", o["subnet"]),
+                      "arp_requests_seen": [((a["t"] - o["start"]) // 1000000, a["target"]) for a in o["seen"]
+                                            if a["op"] == 1 and a["sender"] == o["src_ip"]][:30],
+                      "stdout": o["stdout"][:4]})
+        r = e2e_spec(o)
+        if r:
+            path = ctx.write_replay("e2e-%d" % len(ctx.findings), {
+                "property": "C19", "what": r[1], "input": {"e2e": True, "subnet": o["subnet"], "exclude": o["exclude"],
+                                                         "interval_ms": o["interval_ms"], "run_ms": o["run_ms"]},
+                "observed": {"seen": o["seen"][:80], "stdout": o["stdout"], "exit_code": o["exit_code"], "stderr": o["stderr"]},
+                "replay_cmd": "bin/check C19 --replay <this file>"})
+            ctx.findings.append({"key": r[0], "what": r[1], "replay": path})
     for o in rows:
         key = (json.dumps(o["script"]), o["cap"], o["cancel_after"])
         inside = o["cancel_after"] < (1 << 29) and o["cancel_after"] >= 0
@@ -247,6 +324,23 @@ def replay(ctx, path):
         return 1
     if not ctx.harness_build("c19"):
         return 1
+    if r["input"].get("e2e"):
+        sx = os.path.join(ctx.work, "sx")
+        rc, out = verif.sh(["go", "build", "-o", sx, "."], env=verif.GOENV, cwd=verif.REPO, timeout=900)
+        if rc != 0:
+            print(out[-500:])
+            return 1
+        ok, _ = ctx.harness_run("c19", ["-out", "one.jsonl", "-ntrace", 0, "-nseq", 0, "-every", 0, "-e2e", 4, "-sx", sx],
+                                timeout=300)
+        bad = 0
+        for o in ctx.read_jsonl(os.path.join(ctx.work, "one.jsonl")):
+            if o["kind"] != "e2e":
+                continue
+            why = None if o.get("skipped") else e2e_spec(o)
+            print("e2e sx arp --live %dms %s exclude=%s: %s" % (o["interval_ms"], o["subnet"], o["exclude"],
+                                                                o.get("skipped") or (why[1] if why else "property holds")))
+            bad += 1 if why else 0
+        return 1 if bad else 0
     bad = 0
     for attempt in range(5):
         p = os.path.join(ctx.work, "one-in.json")
